@@ -181,6 +181,14 @@ class C01(Prop):
         for _ in range(16): w = b'\xa1\x07\x83' + refcbor.head(2, len(w)) + w + b'\xa0\x40'
         out.append(mk('dec Header b' + w.hex(), k='nest-work', n=16, timeout=60))
         out.append(mk('dec CoseSign1 b' + (b'\x84' + refcbor.head(2, len(w)) + w + b'\xa0\xf6\x40').hex(), k='nest-work', n=16, timeout=60))
+        # … the same through the unprotected bucket, the list form and mixtures, around a header of many labels (informed round 13: the
+        # unprotected bucket of a signature converted twice — 2^16 conversions of the innermost header, no protected byte string involved)
+        inner2 = refcbor.head(5, 3000) + b''.join(b'\x1a' + (70000 + i).to_bytes(4, 'big') + b'\x00' for i in range(3000))
+        for pat in (['ub'], ['ul'], ['pl'], ['ub', 'pb'], ['ul', 'pl', 'ub']):
+            w2 = nestG(16, pat, inner=inner2)
+            out.append(mk('dec Header b' + w2.hex(), k='nest-work', n=16, timeout=60, gen='16 levels (%s) around a header of 3000 labels' % '/'.join(pat)))
+            out.append(mk('dec CoseSign1 b' + (b'\x84\x40' + w2 + b'\xf6\x40').hex(), k='nest-work', n=16, timeout=60, gen='16 levels (%s) around a header of 3000 labels' % '/'.join(pat)))
+            out.append(mk('dec CoseSign b' + (b'\x84\x40\xa0\xf6\x81\x83\x40' + nestG(15, pat, inner=inner2) + b'\x40').hex(), k='nest-work', n=15, timeout=60))
         n0 = 25000 if tier == 'quick' else 100000
         for shape, t, f in scale_shapes():
             for n in (n0, 4 * n0):
@@ -423,6 +431,14 @@ class StructProp(Prop):
     def phs(self, g, r):
         x = r.random()
         if x < 0.03: return r.choice(self.UNSER), None      # repeats a label: serialising it fails, the structure functions refuse (panic)
+        if 0.66 <= x < 0.72:
+            # an extra entry under the label of a typed field that is *unset*: an ordinary entry, emitted as given (informed round 13: label 4
+            # recorded as emitted although the key id was empty); a private-use algorithm holding any integer, an assigned one too (only a
+            # struct literal builds it; it is emitted as that integer); two byte fields alike and nothing else in the header
+            return '(ph - %s)' % r.choice(['(hdr - (crit) - b b b (cs) (rest i4 t6b65792d31))', '(hdr A-7 (crit) - b b b (cs) (rest i4 b01))', '(hdr - (crit) - b b b (cs) (rest i1 i-7))', '(hdr - (crit) - b3131 b b (cs) (rest i2 (arr i1)))',
+                                           '(hdr - (crit) - b b b (cs) (rest i3 i0))', '(hdr - (crit) - b b b (cs) (rest i5 b01))', '(hdr - (crit) - b b b (cs) (rest i6 b02 i5 b01))', '(hdr - (crit) - b b b (cs) (rest i7 (arr b (map) b01)))',
+                                           '(hdr P5 (crit) - b b b (cs) (rest))', '(hdr P-7 (crit) - b b b (cs) (rest))', '(hdr P0 (crit) - b3131 b b (cs) (rest))', '(hdr P-65536 (crit) - b b b (cs) (rest))', '(hdr P-65537 (crit) - b b b (cs) (rest))',
+                                           '(hdr - (crit) - b0a0b b0a0b b (cs) (rest))', '(hdr - (crit) - b0a0b b b0a0b (cs) (rest))', '(hdr - (crit) - b01 b01 b (cs) (rest))', '(hdr - (crit) - b b07 b (cs) (rest i9 b07))']), None
         if 0.60 <= x < 0.66:
             # a built header may hold any text as its content type (only the decoder is particular): padded, without or with several
             # separators, look-alike separators — emitted as given (informed round 10: trimmed when encoded)
